@@ -2,6 +2,7 @@ import SpecVerif.Proofs.Lemmas.ArmaEst
 import SpecVerif.Proofs.C08
 import SpecVerif.Proofs.C09
 import SpecVerif.Proofs.C12
+import SpecVerif.Proofs.Lemmas.SchurCohn
 /-
   C15 — the moving-average estimator `ma` (`maEstimate`), the ARMA estimator `arma_estimate`
   (`armaEstimate`) and the PSD of the AR / MA / ARMA classes (`arma2psd` + the class glue `classPsd`).
@@ -22,10 +23,15 @@ import SpecVerif.Proofs.C12
   `psdLen isReal nfft` is the number of values a class returns (`NFFT/2+1` / `(NFFT+1)/2` for real
   data, `NFFT` otherwise).
 
-  NOT proved (outside the targets): that all zeros of the MA polynomial lie inside the unit circle for
-  `Q ≥ 2` (Schur–Cohn; proved here: every reflection coefficient of the second Levinson recursion has
-  modulus `< 1`, hence `|b_Q| < 1`, and the full root location for `Q = 1`), and the correctness of the
-  Gauss–Jordan elimination (`lstsq` returns the minimiser) — only the shape of its output is used.
+  Invertibility is now PROVED for every `Q` (section 9, `ma_invertible`, `arma_ma_invertible`): all
+  zeros of the MA polynomial `z^Q + b_1 z^{Q-1} + … + b_Q` lie strictly inside the unit circle, for
+  any data.  It follows from `|k_i| < 1` for every reflection coefficient of the second Levinson
+  recursion (`ma_refl_lt_one`) by the Schur–Cohn theorem for the step-up recursion
+  (`Proofs/Lemmas/SchurCohn.lean`, through `C12.yule_stable`); `ma_invertible_order1` is the special
+  case `Q = 1`.  Consequently `B(ω^k) ≠ 0` on the whole frequency grid and `pma` is strictly positive
+  for every `Q` (`ma_psd_pos`).
+  NOT proved (outside the targets): the correctness of the Gauss–Jordan elimination (`lstsq` returns
+  the minimiser) — only the shape of its output is used.
 -/
 namespace SpecVerif.C15
 open Finset SpecVerif SpecVerif.ArmaL SpecVerif.ArmaEstL
@@ -540,5 +546,117 @@ theorem parma_psd_pos [IsZero F] (x : List F) (P Q lag : ℕ) (a b : List F) (rh
     hpos.1, hpos.2.1⟩
 
 end RC
+
+/-! ### 9. invertibility of the MA part for every `Q` (Schur–Cohn) -/
+
+section Invertible
+variable {F : Type} [RCLike F]
+
+/-- **`ma`: invertibility, every `Q`.**  Under the hypotheses of `ma_refl_lt_one` (none beyond success:
+the second Levinson recursion of `maEstimate` always has all `|k_i| < 1`), every zero `z` of the MA
+polynomial `B(z) = z^Q + b_1 z^{Q-1} + … + b_Q` of the returned coefficients (`[1, b_1..b_Q]` handed to
+`numpy.roots`, i.e. `SchurL.polyA b z`) lies strictly inside the unit circle — for any data `x`. -/
+theorem ma_invertible (x : List F) (Q M : ℕ) (b : List F) (rho : F)
+    (h : maEstimate x Q M = .ok (b, rho)) (z : F)
+    (hz : z ^ Q + ∑ j ∈ range Q, nth b j * z ^ (Q - 1 - j) = 0) : ‖z‖ < 1 := by
+  obtain ⟨_, _, rfl, _⟩ := (C12.ma_eq_two_yule x Q M b rho).mp h
+  exact C12.yule_stable _ (one_cons_nonzero _) Q z hz
+
+/-- the same with the helper definition `SchurL.polyA b z = z^m + Σ_{j<m} b_j z^{m-1-j}` (`m` the
+length of `b`): no zero on or outside the unit circle -/
+theorem ma_invertible_polyA (x : List F) (Q M : ℕ) (b : List F) (rho : F)
+    (h : maEstimate x Q M = .ok (b, rho)) (z : F) (hz : 1 ≤ ‖z‖) : SchurL.polyA b z ≠ 0 := by
+  intro h0
+  rw [SchurL.polyA_eq _ Q (C12.ma_length x Q M b rho h)] at h0
+  exact absurd (ma_invertible x Q M b rho h z h0) (not_lt.mpr hz)
+
+/-- **`ma`: `B` does not vanish on the frequency grid**, every `Q`, any data: for an `nfft`-th root of
+unity `ω`, `B(ω^k) = 1 + Σ_j b_j ω^{(j+1)k} ≠ 0`. -/
+theorem ma_no_unit_zeros (x : List F) (Q M : ℕ) (b : List F) (rho : F)
+    (h : maEstimate x Q M = .ok (b, rho)) {ω : F} {nfft : ℕ} (hn : 0 < nfft) (hω : ω ^ nfft = 1)
+    (k : ℕ) : polyAt ω b k ≠ 0 := by
+  have hlen : b.length = Q := C12.ma_length x Q M b rho h
+  obtain ⟨_, _, rfl, _⟩ := (C12.ma_eq_two_yule x Q M b rho).mp h
+  have hw : ‖ω ^ k‖ ≤ 1 := le_of_eq (norm_pow_root_of_unity hn hω k)
+  have h1 := C12.yule_no_unit_zeros _ (one_cons_nonzero (aryule x M .biased).A) Q (ω ^ k) hw
+  unfold polyAt
+  rw [hlen]
+  have e : ∀ j ∈ range Q,
+      nth (aryule ((1 : F) :: (aryule x M .biased).A) Q .biased).A j * ω ^ ((j + 1) * k)
+        = nth (aryule ((1 : F) :: (aryule x M .biased).A) Q .biased).A j * (ω ^ k) ^ (j + 1) := by
+    intro j _
+    rw [pow_mul']
+  rw [Finset.sum_congr rfl e]
+  exact h1
+
+/-- **`pma` is strictly positive on the whole grid, every `Q`**, for every data set that is not the
+zero signal (generalises `ma_psd_pos_order1`). -/
+theorem ma_psd_pos (x : List F) (hx : ∃ j, j < x.length ∧ nth x j ≠ 0) (Q M : ℕ) (b : List F)
+    (rho : F) (h : maEstimate x Q M = .ok (b, rho)) {ω : F} {nfft : ℕ} (hn : Q < nfft)
+    (hω : ω ^ nfft = 1) (fs twoPi : F) (hfs : 0 < RCLike.re fs ∧ RCLike.im fs = 0)
+    (isReal : Bool) (k : ℕ) (hk : k < psdLen isReal nfft) :
+    0 < RCLike.re (nth (classPsd (arma2psd (twiddles ω nfft) none (some b) rho fs nfft) isReal nfft
+        false twoPi fs) k)
+    ∧ RCLike.im (nth (classPsd (arma2psd (twiddles ω nfft) none (some b) rho fs nfft) isReal nfft
+        false twoPi fs) k) = 0 := by
+  have hlen : b.length = Q := C12.ma_length x Q M b rho h
+  have hB : optPolyAt ω (some b) k ≠ 0 := by
+    rw [optPolyAt_some]
+    exact ma_no_unit_zeros x Q M b rho h (by omega) hω k
+  have h := psd_pos_of_no_unit_zeros (by omega) hω none (some b) (fun a h => by cases h)
+    (fun b' h => by cases h; omega) rho fs twoPi (ma_rho_pos x hx Q M b rho h) hfs isReal false
+    (fun h => by cases h) k hk (by simp) hB
+  exact ⟨h.1, h.2.1⟩
+
+/-- **`pyule` is strictly positive and finite on the whole grid, every order**: for a non-zero
+signal the Yule–Walker polynomial has no zero on the unit circle, so the AR class PSD built from
+`aryule` is a positive real number at every bin. -/
+theorem yule_psd_pos (x : List F) (hx : ∃ j, j < x.length ∧ nth x j ≠ 0) (p : ℕ) {ω : F} {nfft : ℕ}
+    (hn : p < nfft) (hω : ω ^ nfft = 1) (fs twoPi : F)
+    (hfs : 0 < RCLike.re fs ∧ RCLike.im fs = 0) (isReal : Bool) (k : ℕ)
+    (hk : k < psdLen isReal nfft) :
+    0 < RCLike.re (nth (classPsd (arma2psd (twiddles ω nfft) (some (aryule x p .biased).A) none
+        (aryule x p .biased).P fs nfft) isReal nfft false twoPi fs) k)
+    ∧ RCLike.im (nth (classPsd (arma2psd (twiddles ω nfft) (some (aryule x p .biased).A) none
+        (aryule x p .biased).P fs nfft) isReal nfft false twoPi fs) k) = 0 := by
+  have hlen : (aryule x p .biased).A.length = p := (C12.aryule_eq x p).2.2.2.2.1
+  have hp := C12.yule_stable_params x hx p
+  have hA : polyAt ω (aryule x p .biased).A k ≠ 0 := by
+    have hw : ‖ω ^ k‖ ≤ 1 := le_of_eq (norm_pow_root_of_unity (by omega) hω k)
+    have h1 := C12.yule_no_unit_zeros x hx p (ω ^ k) hw
+    unfold polyAt
+    rw [hlen]
+    have e : ∀ j ∈ range p, nth (aryule x p .biased).A j * ω ^ ((j + 1) * k)
+        = nth (aryule x p .biased).A j * (ω ^ k) ^ (j + 1) := by
+      intro j _
+      rw [pow_mul']
+    rw [Finset.sum_congr rfl e]
+    exact h1
+  exact ar_psd_pos (by omega) hω _ (by omega) _ fs twoPi
+    ((posReal_iff _).mp (posReal_of_star _ hp.1 hp.2.1)) hfs isReal k hk hA
+
+section ArmaInv
+variable [IsZero F]
+
+/-- **`arma_estimate`: the MA part is invertible, every `Q`, any data.**  The MA stage is
+`ma(resid, Q, 2Q)`, whose second Levinson recursion always has `|k_i| < 1`; hence every zero of
+`z^Q + b_1 z^{Q-1} + … + b_Q` lies strictly inside the unit circle, and `B(ω^k) ≠ 0` on the whole
+frequency grid (no residual hypothesis is needed for this part). -/
+theorem arma_ma_invertible (x : List F) (P Q lag : ℕ) (a b : List F) (rho : F)
+    (h : armaEstimate x P Q lag = .ok (a, b, rho)) :
+    (∀ z : F, z ^ Q + ∑ j ∈ range Q, nth b j * z ^ (Q - 1 - j) = 0 → ‖z‖ < 1)
+    ∧ ∀ {ω : F} {nfft : ℕ}, 0 < nfft → ω ^ nfft = 1 → ∀ k, polyAt ω b k ≠ 0 := by
+  obtain ⟨_, _, _, _, hma⟩ := (armaEstimate_ok_iff x P Q lag a b rho).mp h
+  exact ⟨fun z hz => ma_invertible _ Q (2 * Q) b rho hma z hz,
+    fun hn hω k => ma_no_unit_zeros _ Q (2 * Q) b rho hma hn hω k⟩
+
+end ArmaInv
+
+/-- non-vacuity: `ma([1,2,0,1,3], Q=2, M=3)` succeeds (`0 < Q < M`), so `ma_invertible` applies with
+`Q = 2` -/
+example : ∃ b rho, maEstimate ([1, 2, 0, 1, 3] : List ℝ) 2 3 = .ok (b, rho) :=
+  ⟨_, _, ((C12.ma_eq_two_yule _ 2 3 _ _).mpr ⟨by omega, by omega, rfl, rfl⟩)⟩
+
+end Invertible
 
 end SpecVerif.C15
